@@ -194,6 +194,10 @@ class FilesWorld:
                 if site == "dump_write":
                     fd["after"] = int(2 ** rf.uniform(0, 11))
                 faults.append(fd)
+            elif swarm["faults"] and core.stream(seed, "syserr:%d" % len(ops)).random() < 0.08:
+                # an I/O error raised by the os-level call itself
+                r_ = core.stream(seed, "syserr-at:%d" % len(ops))
+                faults.append({"site": "sys", "at": r_.randint(1, 10), "kind": r_.choice(["EIO", "EACCES", "ENOSPC"])})
             elif swarm["faults"] and core.stream(seed, "peer:%d" % len(ops)).random() < 0.12:
                 # a concurrent peer dumps into the same target just before the k-th os-level call of this operation
                 faults.append({"site": "sys", "at": core.stream(seed, "peer-at:%d" % len(ops)).randint(1, 12),
@@ -257,7 +261,7 @@ class FilesWorld:
         entries = ["api_file", "api_dump", "cli_file", "cli_dir"]
         for e in entries:
             for env in [None] + ENV_KINDS:
-                for f in [None] + IO_FAULTS + ["listdir:perm"] + (["sys:%d" % n for n in range(1, 11)] + ["syscall:%d" % n for n in range(1, 11)] if env in (None, "rm_target") else []):
+                for f in [None] + IO_FAULTS + ["listdir:perm"] + (["sys:%d" % n for n in range(1, 11)] + ["syscall:%d" % n for n in range(1, 11)] if env in (None, "rm_target") else []) + (["syserr:%d" % n for n in range(1, 11)] if env is None else []):
                     if f == "listdir:perm" and e != "cli_dir":
                         continue
                     if f and f.startswith("input_open") and e == "api_dump":
@@ -275,6 +279,8 @@ class FilesWorld:
                         faults = [{"site": "listdir", "perm_seed": rw.randrange(10 ** 6)}]
                     elif f and f.startswith("sys:"):
                         faults = [{"site": "sys", "at": int(f[4:]), "kind": "peer_dump"}]
+                    elif f and f.startswith("syserr:"):
+                        faults = [{"site": "sys", "at": int(f[7:]), "kind": rw.choice(["EIO", "EACCES", "ENOSPC"])}]
                     elif f and f.startswith("syscall:"):
                         faults = [{"site": "sys", "at": int(f[8:]), "kind": "peer_call"}]
                     elif f:
